@@ -6,11 +6,11 @@ CONSTANTS
   PVals = {0, 1, 2, 3, 4, 5}
   LVals = {0, 1, 2, 3, 4}
   ForbSets = {{}, {2}}
-  PV = {1, 2, 3, 5}
+  PV = {1, 2, 3}
   MinV = {1, 3}
   MaxV = {1, 3}
-  Pairs = {13, 31, 11, 22}
-  APairs = {31, 13}
+  Pairs = {13, 31, 22}
+  APairs = {31}
   Depth = 5
 CONSTRAINT Bound
 INVARIANT Emit1
